@@ -102,7 +102,10 @@ def check_group(ctx, csg, psgs, batch):
         if not (g == h and hash(g) == hash(h) and h.name == name and {g: 1}.get(h) == 1):
             ctx.violation('equal multisets in a different order are not the same group', dict(inp, other=q),
                           expected='equal, same hash, same dict entry', observed=[name, h.name])
-    if not (g == name and {name: 1}.get(g) == 1 and {g: 1}.get(name) == 1 and hash(g) == hash(name)):
+    interop = (g == name and name == g and not (g != name) and not (name != g) and {name: 1}.get(g) == 1
+               and {g: 1}.get(name) == 1 and hash(g) == hash(name) and g in [name] and name in [g] and g in {name}
+               and [x for x in [name] if x != g] == [] and not (g != impl_group(csg, list(reversed(psgs)))))
+    if not interop:
         ctx.violation('group is not interchangeable with its canonical name as a string', inp,
                       expected='g == name and dict interop', observed=name)
     if wf(csg, psgs):
@@ -206,6 +209,7 @@ def run(ctx):
         if 'ok' in r:
             check_group(ctx, r['ok']['csg'], r['ok']['psgs'], batch)
     lookup_check(ctx)
+    synthetic_library_check(ctx)
     # malformed
     for t in malformed_texts(ctx, ctx.n(600, 20000)):
         r = impl_parse(t)
@@ -223,26 +227,105 @@ def run(ctx):
                 ctx.disagree('corr:' + req['op'], inp, impl, rep)
 
 
+def library_files():
+    """{library name: group names written under `groups:` in library.yaml and the files it (transitively) includes}"""
+    import os, yaml
+    import pgradd
+    root = os.path.join(os.path.dirname(pgradd.__file__), 'data')
+    out = {}
+
+    def walk(path, base, names, seen):
+        if path in seen or not os.path.isfile(path):
+            return
+        seen.add(path)
+        doc = yaml.safe_load(open(path))
+        if not isinstance(doc, dict):
+            return
+        if isinstance(doc.get('groups'), dict):
+            names += [str(k) for k in doc['groups']]
+        for inc in doc.get('include') or []:
+            walk(os.path.join(base, inc), base, names, seen)
+    for lib in sorted(os.listdir(root)):
+        names = []
+        walk(os.path.join(root, lib, 'library.yaml'), os.path.join(root, lib), names, set())
+        out[lib] = names
+    return out
+
+
 def lookup_check(ctx):
-    """a real library indexes the same entry under any spelling of a key"""
+    """every entry a library file writes under `groups:` is indexed by the group its name denotes: reachable through
+    Group.parse of the written name, through any other spelling, through Group(...) in any order and through the canonical string"""
+    import warnings
+    warnings.filterwarnings('ignore')
+    import pgradd.ThermoChem  # noqa
     from pgradd.GroupAdd.Library import GroupLibrary
     from pgradd.GroupAdd.Group import Group
-    lib = GroupLibrary.Load('BensonGA')
-    keys = list(lib.contents)
-    ctx.rng.shuffle(keys)
-    for g in keys[:ctx.n(60, 400)]:
-        if not isinstance(g, Group):
-            continue
-        ps = list(g.psgs)
-        ctx.rng.shuffle(ps)
-        h = Group(lib.scheme, g.csg, ps)
-        t = spellings(ctx.rng, g.csg, g.psgs, 1)[0]
-        p = Group.parse(lib.scheme, t)
-        ctx.case(None)
-        ctx.count('library_lookups')
-        if not (lib[h] is lib[g] and lib[p] is lib[g] and lib[g.name] is lib[g] and lib[g]):
-            ctx.violation('library lookup depends on the spelling of the group', {'name': g.name, 'spelling': t},
-                          'same entry', None)
+    files = library_files()
+    for libname in sorted(files):
+        try:
+            lib = GroupLibrary.Load(libname)
+        except Exception as e:
+            raise common.MachineryError('cannot load %s: %r' % (libname, e))
+        names = list(dict.fromkeys(files[libname]))
+        ctx.rng.shuffle(names)
+        for nm in names[:ctx.n(40, 400)]:
+            r = impl_parse(nm)
+            if 'ok' not in r:
+                continue
+            csg, psgs = r['ok']['csg'], r['ok']['psgs']
+            ps = list(psgs)
+            ctx.rng.shuffle(ps)
+            by_parse = lib[Group.parse(lib.scheme, nm)]
+            by_ctor = lib[Group(lib.scheme, csg, ps)]
+            by_spelling = lib[Group.parse(lib.scheme, spellings(ctx.rng, csg, psgs, 1)[0])] if wf(csg, psgs) else by_parse
+            by_string = lib[r['ok']['name']]
+            ctx.case(None)
+            ctx.count('library_lookups')
+            if not (by_parse and by_ctor is by_parse and by_spelling is by_parse and by_string is by_parse):
+                ctx.violation('a library entry is not indexed by the group its written name denotes',
+                              {'library': libname, 'written': nm, 'csg': csg, 'psgs': ps},
+                              'same non-empty entry via parse / constructor / other spelling / canonical string',
+                              {'parse': bool(by_parse), 'ctor': by_ctor is by_parse, 'spelling': by_spelling is by_parse,
+                               'string': by_string is by_parse})
+
+
+def synthetic_library_check(ctx):
+    """a library file whose entries are written in arbitrary (non-canonical) spellings — incl. bracketed, multi-letter and
+    digit-bearing peripheral names — must index each entry by the group it denotes"""
+    import os, shutil, warnings
+    warnings.filterwarnings('ignore')
+    import pgradd
+    import pgradd.ThermoChem  # noqa
+    from pgradd.GroupAdd.Library import GroupLibrary
+    from pgradd.GroupAdd.Group import Group
+    rng = ctx.rng
+    d = os.path.join(ctx.scratch, 'synthlib')
+    os.makedirs(d, exist_ok=True)
+    root = os.path.join(os.path.dirname(pgradd.__file__), 'data')
+    shutil.copy(os.path.join(root, 'XieGA2022', 'scheme.yaml'), os.path.join(d, 'scheme.yaml'))
+    names = ['C', 'H', 'C[d]', 'C[B]', 'C[.]', 'N[A]', 'CO', 'Pt', 'C2', 'O']
+    groups = {}
+    for _ in range(ctx.n(40, 300)):
+        csg = rng.choice(['C', 'O', 'C[d]', 'C[B]', 'CO', 'N[A]'])
+        ps = [rng.choice(rng.sample(names, 3)) for _ in range(rng.randint(1, 5))]
+        groups[(csg, tuple(sorted(ps)))] = spellings(rng, csg, ps, 1)[0]
+    groups = {k: v for k, v in groups.items() if all(ord(c) < 128 for c in v)}
+    with open(os.path.join(d, 'library.yaml'), 'w') as f:
+        f.write('groups:\n')
+        for i, ((csg, ps), text) in enumerate(groups.items()):
+            f.write("    '%s':\n        'thermochem':\n            T_ref: 298.15 K\n            H_ref: %d.5 kcal/mol\n" % (text, i))
+    lib = GroupLibrary.Load(os.path.join(d, 'library.yaml'))
+    for i, ((csg, ps), text) in enumerate(groups.items()):
+        q = list(ps)
+        rng.shuffle(q)
+        ctx.case(('synthlib', text), None)
+        ctx.count('synthetic_library_entries')
+        entries = [lib[Group(lib.scheme, csg, q)], lib[Group.parse(lib.scheme, text)],
+                   lib[impl_group(csg, ps).name], lib[Group.parse(lib.scheme, spellings(rng, csg, ps, 1)[0])]]
+        if not all(e and e is entries[0] for e in entries):
+            ctx.violation('a library entry written in a non-canonical spelling is not indexed by the group it denotes',
+                          {'written': text, 'csg': csg, 'psgs': list(ps)}, 'found via constructor / parse / canonical string / other spelling',
+                          [bool(e) for e in entries])
 
 
 def replay(ctx, rec, record=False):
